@@ -290,8 +290,21 @@ def _invalid(r, case):
            'object-frame': pd.DataFrame({'a': ['x', 'y', 'z'], 'b': [1.0, 2.0, 3.0]}),
            'nan-frame': pd.DataFrame({'a': [1.0, np.nan, 3.0, 4.0], 'b': [2.0, 1.0, 0.5, 3.0]}),
            'nan-array': np.array([[1.0, 2.0], [np.nan, 1.0], [3.0, 0.5]])}
-    for cname, mk in (('gm', lambda: GaussianMultivariate()), ('vine-center', lambda: VineCopula('center')),
-                      ('vine-regular', lambda: VineCopula('regular'))):
+    # non-numeric columns that a lenient validator could coerce to float
+    n_ = 12
+    x_ = np.linspace(0.1, 3.0, n_)
+    y_ = np.sin(x_) + x_
+    bad.update({
+        'numeric-strings-frame': pd.DataFrame({'a': x_, 'b': [f'{v:.2f}' for v in y_]}),
+        'datetime-frame': pd.DataFrame({'a': x_, 'b': pd.to_datetime('2020-01-01') + pd.to_timedelta(np.arange(n_), 'D')}),
+        'timedelta-frame': pd.DataFrame({'a': x_, 'b': pd.to_timedelta(np.arange(n_), 'D')}),
+        'digit-categorical-frame': pd.DataFrame({'a': x_, 'b': pd.Categorical([str(i % 5) for i in range(n_)])}),
+        'string-array': np.array([['1.0', '2.0'], ['0.5', '1.5'], ['3.0', '0.2']]),
+        'nan-in-last-row-frame': pd.DataFrame({'a': x_, 'b': np.where(np.arange(n_) == n_ - 1, np.nan, y_)}),
+    })
+    gm_cls = lambda: GaussianMultivariate(distribution='copulas.univariate.gaussian.GaussianUnivariate')   # noqa: E731
+    for cname, mk in (('gm', lambda: GaussianMultivariate()), ('gm-gaussian', gm_cls), ('vine-center', lambda: VineCopula('center')),
+                      ('vine-direct', lambda: VineCopula('direct')), ('vine-regular', lambda: VineCopula('regular'))):
         for bname, X in bad.items():
             with warnings.catch_warnings():
                 warnings.simplefilter('ignore')
